@@ -240,6 +240,30 @@ def gen(rng, n_manual, n_auto):
             for _ in range(rng.choice([1, 2])):
                 c["faults"].setdefault(str(rng.randint(1, 12)), []).append(["C1", str(rng.choice([F(1, 2), F(1), F(2), F(5, 2)]))])
         cases.append(c)
+    for q in range(max(2, n_auto // 12)):
+        # targeted: ICT-based control, a plain disconnector (no intelligent switch) on the breaker's own line; that line fails (the
+        # breaker is held open); a second fault on a line without sensor starts a manual sectioning time shortly before the first
+        # line is repaired: the root section is put back while the breaker still has to stay open
+        c = ctl.gen_scenario(rng, max_lines=4, ctrl="main", nfeed=1, allow_mg=False)
+        c["kind"] = "auto"
+        fd = c["spec"]["feeders"][0]
+        while len(fd["parent"]) < 3:
+            fd["parent"].append(len(fd["parent"]) - 1)
+            for key, v in (("sw", 1), ("cust", 1), ("load", "1/50"), ("cost", 1)):
+                fd[key].append(v)
+        fd["sw"][0] = 2
+        x = rng.randrange(1, len(fd["parent"]))
+        if fd["sw"][x] == 0:
+            fd["sw"][x] = 1
+        c["spec"]["tie"] = None; c["spec"]["mg"] = None
+        c["spec"]["ctrl"].pop("ict", None)
+        c["spec"]["ctrl"]["nodev"] = ["IF0L0b", f"SF0L{x}"]
+        dt = F(c["dt"]); T = max(F(c["spec"]["ctrl"]["T"]), 2 * dt); c["spec"]["ctrl"]["T"] = str(T)
+        k1 = rng.randint(1, 2); r1 = 4 * dt
+        k2 = k1 + 4 + (q % 2 if T >= 2 * dt and T > 1 else 0)
+        c["faults"] = {str(k1): [["F0L0", str(r1)]], str(k2): [[f"F0L{x}", str(T + 6 * dt)]]}
+        c["n_inc"] = k2 + int((2 * T + 8 * dt + 6) / dt) + 8
+        cases.append(c)
     for q, c in enumerate([c for c in cases if c.get("kind") == "auto"]):
         if q % 7 == 3:
             c["unit"] = rng.choice([1, 2, 4])
